@@ -19,6 +19,10 @@ package stackitem
 //@ ensures[reader] io.validR(r.BinReader) && r.BinReader == old(r.BinReader) && r.limit <= old(r.limit) && -1 <= r.limit && (r.limit >= 0 || r.BinReader.Err != nil)
 //@ loop 0 invariant io.validR(r.BinReader) && r.BinReader == old(r.BinReader) && r.limit <= old(r.limit) && -1 <= r.limit && (r.limit >= 0 || r.BinReader.Err != nil)
 //@ loop 1 invariant io.validR(r.BinReader) && r.BinReader == old(r.BinReader) && r.limit <= old(r.limit) && -1 <= r.limit && (r.limit >= 0 || r.BinReader.Err != nil)
+// a Map's element count is a count: a 64-bit value that turns negative as an int is refused like one
+// over the budget (for arrays the allocation obligation above says the same), it does not decode as
+// an empty map
+//@ call NewMap requires[count] 0 <= size && 2 * size <= r.limit + 1
 
 // Value of an interop item is what it wraps (the body of (*Interop).Value; other item kinds
 // are not constrained here).
